@@ -612,11 +612,19 @@ func (c *UConn) clientHandshake(ctx context.Context) (err error) {
 		hs13.serverHello = serverHello
 		hs13.hello = hello
 		hs13.echContext = ech
-		if c.HandshakeState.State13.EarlySecret != nil && session != nil && session.cipherSuite != 0 {
-			hs13.earlySecret = tls13.NewEarlySecretFromSecret(cipherSuiteTLS13ByID(session.cipherSuite).hash.New, c.HandshakeState.State13.EarlySecret)
+		// [uTLS] The session at hand may be a TLS 1.2 one (injected with
+		// SetSessionState / SetSessionTicketExtension, or left from the first
+		// handshake when a renegotiation is answered at TLS 1.3): its cipher suite
+		// is then not a TLS 1.3 suite and there are no TLS 1.3 secrets to restore.
+		var sessionSuite13 *cipherSuiteTLS13
+		if session != nil && session.cipherSuite != 0 {
+			sessionSuite13 = cipherSuiteTLS13ByID(session.cipherSuite)
 		}
-		if c.HandshakeState.MasterSecret != nil && session != nil && session.cipherSuite != 0 {
-			hs13.masterSecret = tls13.NewMasterSecretFromSecret(cipherSuiteTLS13ByID(session.cipherSuite).hash.New, c.HandshakeState.MasterSecret)
+		if c.HandshakeState.State13.EarlySecret != nil && sessionSuite13 != nil {
+			hs13.earlySecret = tls13.NewEarlySecretFromSecret(sessionSuite13.hash.New, c.HandshakeState.State13.EarlySecret)
+		}
+		if c.HandshakeState.MasterSecret != nil && sessionSuite13 != nil {
+			hs13.masterSecret = tls13.NewMasterSecretFromSecret(sessionSuite13.hash.New, c.HandshakeState.MasterSecret)
 		}
 		if !sessionIsLocked {
 			hs13.earlySecret = earlySecret
